@@ -174,7 +174,6 @@ pub struct QN {
 /// `known`: records the querier lists in the answer section of its query (known answers); the
 /// property quantifies over every query and makes no exception for them.
 pub fn judge_q(w: &World, store: &ResourceRecordManager<'static>, model: &RefStore, qs: &[QN], id: u16, known: &[RefRR]) -> Vec<(String, String)> {
-    let mut bad = Vec::new();
     let mut query = RefPacket { id, ..Default::default() };
     query.answers.extend(known.iter().cloned());
     for q in qs {
@@ -184,21 +183,27 @@ pub fn judge_q(w: &World, store: &ResourceRecordManager<'static>, model: &RefSto
         Ok(p) => p,
         Err(e) => return vec![("construct".into(), e)],
     };
+    let reply = build_reply(lib_query, store).map(|(pkt, unicast)| (observe(&pkt), Some(unicast)));
+    judge_reply(w, model, qs, id, reply)
+}
+
+/// The reply oracle proper: `reply` is what came back (as observed fields), with the unicast
+/// decision when the caller can see it (the socket stages cannot).
+pub fn judge_reply(w: &World, model: &RefStore, qs: &[QN], id: u16, reply: Option<(RefPacket, Option<bool>)>) -> Vec<(String, String)> {
+    let mut bad = Vec::new();
     let auth: Vec<&RefRR> = model.recs.iter().filter(|(_, k)| **k == Kind::Auth).map(|(i, _)| &w.menu[*i]).collect();
     let required: Vec<&RefRR> = auth
         .iter()
         .copied()
         .filter(|r| qs.iter().any(|q| r.name == q.name && type_matches(r.rdata.code(), q.qtype) && class_matches(r.class, q.qclass)))
         .collect();
-    let reply = build_reply(lib_query, store);
     match reply {
         None => {
             if let Some(r) = required.first() {
                 bad.push(("no-reply-but-match".into(), format!("no reply although authoritative record {:?} {} matches a question at its own name", r.name, r.rdata.code())));
             }
         }
-        Some((pkt, unicast)) => {
-            let o = observe(&pkt);
+        Some((o, unicast)) => {
             if o.answers.is_empty() {
                 bad.push(("empty-reply".into(), "a reply without answers was produced".into()));
             }
@@ -209,8 +214,8 @@ pub fn judge_q(w: &World, store: &ResourceRecordManager<'static>, model: &RefSto
                 bad.push(("response-flag".into(), "reply without the response flag".into()));
             }
             let want_uni = qs.iter().any(|q| q.unicast);
-            if unicast != want_uni {
-                bad.push(("unicast".into(), format!("unicast delivery {} but questions asked {}", unicast, want_uni)));
+            if unicast.is_some() && unicast != Some(want_uni) {
+                bad.push(("unicast".into(), format!("unicast delivery {:?} but questions asked {}", unicast, want_uni)));
             }
             if !o.questions.is_empty() || !o.authority.is_empty() || o.opt.is_some() {
                 bad.push(("extra-sections".into(), "reply carries questions / authority / OPT".into()));
@@ -541,6 +546,8 @@ pub fn run(ctx: &Ctx) {
         }
     });
     ctx.space("insertion orders: every ordered pair (and triple, thorough) of distinct records x kinds, without deduplication", perms.len() as u64, "complete");
+    responder_stage(ctx, false, ctx.tier == crate::engine::Tier::Thorough);
+    responder_stage(ctx, true, ctx.tier == crate::engine::Tier::Thorough);
     // odd-shaped owners and large stores
     {
         let mut cases: Vec<(&str, usize, Vec<usize>, Vec<usize>)> = Vec::new();
@@ -615,6 +622,192 @@ pub fn run(ctx: &Ctx) {
         ctx.space(&format!("odd and large stores: {} stores (14 odd-shaped records singly, in ordered pairs, all together and all-but-one; owners with labels of 256/300/260 bytes, binary labels, a dot inside a label, the root, SRV at 1- and 2-label owners, the DNS-SD meta-query name; one owner name holding 31..1100 network-learned records next to a registered one; 10..300 hosts x (A, SRV, PTR) fully authoritative and with every fifth record cached; PTR / CNAME / SRV records that refer to each other in cycles of length 1, 2 and 3, run in a child process) x every question over the world's names x 5 types x 2 classes", cases.len()), total.load(std::sync::atomic::Ordering::Relaxed), "complete");
         ctx.sample(json!({"kind": "extra", "world": "odd", "n": 0, "auth": [0, 1], "cached": []}));
     }
+}
+
+fn rename_under(n: &RefName, tag: &str) -> RefName {
+    let mut l = n.0.clone();
+    if l.last().map(|x| x.0 == b"local").unwrap_or(false) {
+        l.insert(l.len() - 1, B(tag.as_bytes().to_vec()));
+    }
+    RefName(l)
+}
+
+/// The BFS menu with every owner and RDATA name moved below <tag>.local
+pub fn renamed_world(tag: &str) -> World {
+    let menu: Vec<RefRR> = menu()
+        .into_iter()
+        .map(|mut r| {
+            r.name = rename_under(&r.name, tag);
+            if let RefRData::Typed { vals, .. } = &mut r.rdata {
+                for v in vals.iter_mut() {
+                    if let Val::Name(n) = v {
+                        *n = rename_under(n, tag);
+                    }
+                }
+            }
+            r
+        })
+        .collect();
+    let m: &'static Vec<RefRR> = Box::leak(Box::new(menu));
+    let lib: Vec<simple_dns::ResourceRecord<'static>> = m.iter().map(|r| lib_rr(r).expect("menu record")).collect();
+    World { menu: m, lib }
+}
+
+/// The running responders (sync and tokio SimpleMdnsResponder) answer real queries sent over
+/// loopback multicast; every reply that comes back is judged by the same reply model.
+/// The menu is registered under a per-stage label so that both stages (and other checks) can
+/// run on the same host.
+pub fn responder_stage(ctx: &Ctx, asynchronous: bool, thorough: bool) {
+    use std::net::{Ipv4Addr, UdpSocket};
+    use std::time::{Duration, Instant};
+    let key = if asynchronous { "responder_stage_tokio" } else { "responder_stage_sync" };
+    if !crate::engine::loopback_multicast_works() {
+        ctx.set_extra(key, json!({"ran": false, "reason": "a raw socket joined to 224.0.0.251:5353 does not receive a datagram sent to the group from this host"}));
+        return;
+    }
+    let tag = if asynchronous { "c13t" } else { "c13s" };
+    let rename = |n: &RefName| rename_under(n, tag);
+    let w = renamed_world(tag);
+    let mut model = RefStore::default();
+    let rt = tokio::runtime::Builder::new_multi_thread().worker_threads(2).enable_all().build();
+    let rt = match rt {
+        Ok(r) => r,
+        Err(e) => {
+            ctx.set_extra(key, json!({"ran": false, "reason": format!("no runtime: {}", e)}));
+            return;
+        }
+    };
+    enum R {
+        S(simple_mdns::sync_discovery::SimpleMdnsResponder),
+        A(simple_mdns::async_discovery::SimpleMdnsResponder),
+    }
+    let started = guarded(|| {
+        let mut r = if asynchronous { R::A(rt.block_on(async { simple_mdns::async_discovery::SimpleMdnsResponder::new(120) })) } else { R::S(simple_mdns::sync_discovery::SimpleMdnsResponder::new(120)) };
+        for rec in &w.lib {
+            match &mut r {
+                R::S(s) => s.add_resource(rec.clone()),
+                R::A(a) => rt.block_on(a.add_resource(rec.clone())),
+            }
+        }
+        r
+    });
+    let mut responder = match started {
+        Ok(r) => r,
+        Err(pn) => {
+            ctx.violation(finding(format!("C13|responder-stage|{}", pn.sig()), format!("{:?}", pn), json!({"kind": "responder-stage", "async": asynchronous})));
+            return;
+        }
+    };
+    for i in 0..w.menu.len() {
+        model.recs.insert(i, Kind::Auth);
+    }
+    std::thread::sleep(Duration::from_millis(150));
+    let tx = match UdpSocket::bind((Ipv4Addr::UNSPECIFIED, 0)) {
+        Ok(s) => s,
+        Err(e) => {
+            ctx.set_extra(key, json!({"ran": false, "reason": format!("{}", e)}));
+            return;
+        }
+    };
+    let _ = tx.set_multicast_loop_v4(true);
+    let _ = tx.set_read_timeout(Some(Duration::from_millis(40)));
+    let ask = |qs: &[QN], id: u16, wait_ms: u64| -> Vec<RefPacket> {
+        let mut q = RefPacket { id, ..Default::default() };
+        for x in qs {
+            q.questions.push(RefQ { name: x.name.clone(), qtype: x.qtype, qclass: x.qclass, unicast: true });
+        }
+        let _ = tx.send_to(&q.encode(0), (Ipv4Addr::new(224, 0, 0, 251), 5353));
+        let deadline = Instant::now() + Duration::from_millis(wait_ms);
+        let mut got = Vec::new();
+        let mut buf = [0u8; 9000];
+        while Instant::now() < deadline {
+            if let Ok((n, _)) = tx.recv_from(&mut buf) {
+                if let Ok((p, _)) = decode_packet(&buf[..n]) {
+                    if p.id == id && p.flags & F_QR != 0 {
+                        got.push(p);
+                        break;
+                    }
+                }
+            }
+        }
+        got
+    };
+    // does the responder answer at all? (otherwise nothing can be concluded from silence)
+    let probe = QN { name: w.menu[0].name.clone(), qtype: 1, qclass: 1, unicast: true };
+    let mut alive = false;
+    for attempt in 0..10u16 {
+        if !ask(std::slice::from_ref(&probe), 0x6100 + attempt, 250).is_empty() {
+            alive = true;
+            break;
+        }
+    }
+    if !alive {
+        // the environment probe succeeded, the responder was started and a registered record is asked for: silence is a violation
+        ctx.violation(finding(format!("C13|responder-stage|{}|silent", if asynchronous { "tokio" } else { "sync" }), "a running responder does not answer a query for a record registered through add_resource".to_string(), json!({"kind": "responder-stage", "async": asynchronous})));
+        ctx.set_extra(key, json!({"ran": true, "queries": 0}));
+        return;
+    }
+    let mut names: Vec<RefName> = w.menu.iter().map(|r| r.name.clone()).collect();
+    names.push(rename(&RefName::txt("nothing.local")));
+    names.sort();
+    names.dedup();
+    let qtypes: Vec<u16> = if thorough { vec![1, 28, 33, 16, 12, 255] } else { vec![1, 33, 255] };
+    let mut t = Tally::default();
+    let mut n = 0u64;
+    let mut id = 0x6200u16;
+    let mut phase_questions = |model: &RefStore, t: &mut Tally, n: &mut u64, id: &mut u16, label: &str| {
+        for name in &names {
+            for qt in &qtypes {
+                for qc in [1u16, 255] {
+                    if !thorough && qc == 255 && *qt != 255 {
+                        continue;
+                    }
+                    *id = id.wrapping_add(1);
+                    *n += 1;
+                    t.evals += 1;
+                    t.transitions += 1;
+                    let q = QN { name: name.clone(), qtype: *qt, qclass: qc, unicast: true };
+                    let expect_reply = model.recs.iter().any(|(i, k)| *k == Kind::Auth && (w.menu[*i].name == q.name || w.menu[*i].name.is_strict_subdomain_of(&q.name)) && type_matches(w.menu[*i].rdata.code(), q.qtype) && class_matches(w.menu[*i].class, q.qclass));
+                    let mut replies = ask(std::slice::from_ref(&q), *id, if expect_reply { 400 } else { 60 });
+                    if expect_reply && replies.is_empty() {
+                        replies = ask(std::slice::from_ref(&q), *id, 600);
+                    }
+                    let reply = replies.into_iter().next().map(|p| (p, None));
+                    if reply.is_some() {
+                        t.nontrivial += 1;
+                    }
+                    let case = json!({"kind": "responder-stage", "async": asynchronous, "phase": label, "question": q});
+                    for (tag, d) in judge_reply(&w, model, std::slice::from_ref(&q), *id, reply) {
+                        t.outcome("responder-reply-wrong");
+                        ctx.violation(finding(format!("C13|responder-stage|{}|{}", if asynchronous { "tokio" } else { "sync" }, tag), format!("[{}] question {:?} type {} class {}: {}", label, q.name, q.qtype, q.qclass, d), case.clone()));
+                    }
+                }
+            }
+        }
+    };
+    phase_questions(&model, &mut t, &mut n, &mut id, "all registered");
+    // remove every third record through the public API, ask again; clear, ask again
+    for i in (0..w.menu.len()).filter(|i| i % 3 == 0) {
+        match &mut responder {
+            R::S(s) => s.remove_resource_record(w.lib[i].clone()),
+            R::A(a) => rt.block_on(a.remove_resource_record(w.lib[i].clone())),
+        }
+        model.recs.remove(&i);
+    }
+    phase_questions(&model, &mut t, &mut n, &mut id, "after remove_resource_record");
+    match &mut responder {
+        R::S(s) => s.clear(),
+        R::A(a) => rt.block_on(a.clear()),
+    }
+    model.recs.clear();
+    if thorough {
+        phase_questions(&model, &mut t, &mut n, &mut id, "after clear");
+    }
+    t.outcome("responder-stage");
+    ctx.merge(t);
+    ctx.set_extra(key, json!({"ran": true, "queries": n}));
+    ctx.space(&format!("running {} SimpleMdnsResponder over loopback multicast: the 15-record menu registered through add_resource, every owner x question types x classes asked with the unicast bit, replies decoded by the reference decoder and judged by the reply model; again after remove_resource_record on a third of the records{}", if asynchronous { "tokio" } else { "sync" }, if thorough { " and after clear" } else { "" }), n, "complete for the listed questions");
+    rt.shutdown_timeout(Duration::from_millis(100));
 }
 
 /// Worlds outside the BFS menu: odd-shaped owners (labels longer than 255 bytes built without
@@ -778,6 +971,32 @@ pub fn check_extra(kind: &str, n: usize, auth: &[usize], cached: &[usize]) -> (V
 }
 
 pub fn replay(case: &Value) -> Vec<Finding> {
+    if case["kind"].as_str() == Some("responder-stage") {
+        // replayed on the in-memory path: the same store content, the same question, the real build_reply
+        let asynchronous = case["async"].as_bool().unwrap_or(false);
+        let q: QN = match serde_json::from_value(case["question"].clone()) {
+            Ok(q) => q,
+            Err(_) => return vec![],
+        };
+        let w = renamed_world(if asynchronous { "c13t" } else { "c13s" });
+        let phase = case["phase"].as_str().unwrap_or("");
+        let r = guarded(|| {
+            let mut store = ResourceRecordManager::new();
+            let mut model = RefStore::default();
+            for (i, rec) in w.lib.iter().enumerate() {
+                if phase == "after clear" || (phase == "after remove_resource_record" && i % 3 == 0) {
+                    continue;
+                }
+                store.add_authoritative_resource(rec.clone());
+                model.recs.insert(i, Kind::Auth);
+            }
+            judge_q(&w, &store, &model, std::slice::from_ref(&q), 0x6200, &[])
+        });
+        return match r {
+            Err(pn) => vec![finding(format!("C13|{}", pn.sig()), format!("{:?}", pn), case.clone())],
+            Ok(bad) => bad.into_iter().map(|(t, d)| finding(format!("C13|responder-stage|replayed-in-memory|{}", t), d, case.clone())).collect(),
+        };
+    }
     if case["kind"].as_str() == Some("extra") {
         let idx = |k: &str| -> Vec<usize> { case[k].as_array().map(|a| a.iter().filter_map(|x| x.as_u64().map(|v| v as usize)).collect()).unwrap_or_default() };
         return check_extra(case["world"].as_str().unwrap_or("odd"), case["n"].as_u64().unwrap_or(0) as usize, &idx("auth"), &idx("cached")).0;
